@@ -3,5 +3,5 @@ CONSTANTS
   NSrc = 3
   Keys = {1, 2, 3, 4}
   TieBySourceIndex = TRUE
-INVARIANTS OutPrefixOk DoneComplete
+INVARIANTS OutPrefixOk DoneComplete EmitRun
 CHECK_DEADLOCK FALSE
